@@ -17,6 +17,28 @@ theorem translateRange_state (sb eb : Bound) (s : Sys) : (translateRange sb eb s
   cases sb <;> cases eb <;>
     tieS [translateRange, Bound.startE, Bound.endE, checkedAdd]
 
+/-- a range that `translate_range_bounds` accepts lies inside the buffer -/
+theorem translateRange_inside (sb eb : Bound) (s s1 : Sys) (st en : Nat)
+    (htr : translateRange sb eb s = (.ok (st, en), s1)) : en ≤ s.buf.size ∧ st ≤ en := by
+  simp only [translateRange, bind_run, getBuf_run, liftE_run, ite_run, pure_run, raise_run] at htr
+  cases hs : sb.startE with
+  | error p => simp only [hs] at htr; cases htr
+  | ok a =>
+    cases he : eb.endE s.buf.size with
+    | error p => simp only [hs, he] at htr; cases htr
+    | ok b =>
+      by_cases h1 : b ≤ s.buf.size
+      · by_cases h2 : a ≤ b
+        · simp only [hs, he, h1, h2, if_true, ite_true] at htr
+          have e0 := Except.ok.inj (Prod.mk.inj htr).1
+          have e1 : a = st := (Prod.mk.inj e0).1
+          have e2 : b = en := (Prod.mk.inj e0).2
+          omega
+        · simp only [hs, he, h1, h2, if_true, if_false, ite_true, ite_false] at htr
+          cases htr
+      · simp only [hs, he, h1, if_false, ite_false] at htr
+        cases htr
+
 maybe theorem tie_iter_empty (s : Sys) : Gen.Iter_empty s = (.ok Iter.empty, s) := rfl
 
 maybe theorem tie_iter_advance_front_by (it : Iter) (count : Nat) (s : Sys) :
@@ -34,15 +56,17 @@ maybe theorem tie_iter_next (it : Iter) (s : Sys) : Gen.Iter_next it s = (.ok (I
   first
   | rfl
   | (obtain ⟨⟨ro, rl⟩, ⟨lo, ll⟩⟩ := it
-     simp only [Gen.Iter_next, Iter.next, View.takeFirst, pure_run, bind_run]
-     by_cases h1 : rl > 0 <;> by_cases h2 : ll > 0 <;> simp [h1, h2, pure_run] <;> rfl)
+     simp only [Gen.Iter_next, Iter.next, View.takeFirst, View.takeLast, pure_run, bind_run, ite_run]
+     repeat' (first | rfl | ifsplit1 | split)
+     all_goals (first | rfl | (exfalso; omega) | (simp_all; done)))
 
 maybe theorem tie_iter_next_back (it : Iter) (s : Sys) : Gen.Iter_next_back it s = (.ok (Iter.nextBack it), s) := by
   first
   | rfl
   | (obtain ⟨⟨ro, rl⟩, ⟨lo, ll⟩⟩ := it
-     simp only [Gen.Iter_next_back, Iter.nextBack, View.takeLast, pure_run, bind_run]
-     by_cases h1 : rl > 0 <;> by_cases h2 : ll > 0 <;> simp [h1, h2, pure_run] <;> rfl)
+     simp only [Gen.Iter_next_back, Iter.nextBack, View.takeFirst, View.takeLast, pure_run, bind_run, ite_run]
+     repeat' (first | rfl | ifsplit1 | split)
+     all_goals (first | rfl | (exfalso; omega) | (simp_all; done)))
 
 maybe theorem tie_iter_new (s : Sys) (h : Inv s.buf) : Gen.Iter_new s = Iter.new s := by
   tie2 h [Gen.Iter_new, Iter.new]
@@ -58,19 +82,18 @@ maybe theorem tie_iter_over_range (sb eb : Bound) (s : Sys) (h : Inv s.buf) :
        | error p => rfl
        | ok se =>
          obtain ⟨st, en⟩ := se
+         have hb := translateRange_inside sb eb s s1 st en htr
          have hs1 : s1 = s := by
            have := translateRange_state sb eb s
            rw [htr] at this
            exact this
          subst hs1
-         simp only [getBuf_bind, ite_run, bind_run, pure_run, tie_iter_empty, tie_iter_new s1 h, getBuf_run]
-         split
-         · rfl
-         · cases hn : Iter.new s1 with
-           | mk r2 s2 => cases r2 with
-             | error p => rfl
-             | ok it0 =>
-               simp only [tie_iter_advance_front_by, tie_iter_advance_back_by, liftE_bind])
+         -- the range lies inside the buffer: `len - end` cannot fail, so it does not matter when it is computed
+         have hu : usub s1.buf.size en = .ok (s1.buf.size - en) := by simp [usub]; omega
+         simp only [getBuf_bind, getBuf_run, ite_run, ite_bind, bind_run, pure_run, tie_iter_empty, tie_iter_new s1 h,
+           tie_iter_advance_front_by, tie_iter_advance_back_by, liftE_bind, liftE_run, hu, bind_assoc_run, pure_bind_run]
+         repeat' (first | rfl | ifsplit1 | split)
+         all_goals (first | rfl | (exfalso; omega)))
 
 /-! ### `IterMut`: its own copy of the same code, tied to the same model functions -/
 
@@ -91,15 +114,17 @@ maybe theorem tie_itermut_next (it : Iter) (s : Sys) : Gen.IterMut_next it s = (
   first
   | rfl
   | (obtain ⟨⟨ro, rl⟩, ⟨lo, ll⟩⟩ := it
-     simp only [Gen.IterMut_next, Iter.next, View.takeFirst, pure_run, bind_run]
-     by_cases h1 : rl > 0 <;> by_cases h2 : ll > 0 <;> simp [h1, h2, pure_run] <;> rfl)
+     simp only [Gen.IterMut_next, Iter.next, View.takeFirst, View.takeLast, pure_run, bind_run, ite_run]
+     repeat' (first | rfl | ifsplit1 | split)
+     all_goals (first | rfl | (exfalso; omega) | (simp_all; done)))
 
 maybe theorem tie_itermut_next_back (it : Iter) (s : Sys) : Gen.IterMut_next_back it s = (.ok (Iter.nextBack it), s) := by
   first
   | rfl
   | (obtain ⟨⟨ro, rl⟩, ⟨lo, ll⟩⟩ := it
-     simp only [Gen.IterMut_next_back, Iter.nextBack, View.takeLast, pure_run, bind_run]
-     by_cases h1 : rl > 0 <;> by_cases h2 : ll > 0 <;> simp [h1, h2, pure_run] <;> rfl)
+     simp only [Gen.IterMut_next_back, Iter.nextBack, View.takeFirst, View.takeLast, pure_run, bind_run, ite_run]
+     repeat' (first | rfl | ifsplit1 | split)
+     all_goals (first | rfl | (exfalso; omega) | (simp_all; done)))
 
 maybe theorem tie_itermut_new (s : Sys) (h : Inv s.buf) : Gen.IterMut_new s = Iter.new s := by
   tie2 h [Gen.IterMut_new, Iter.new]
@@ -115,19 +140,17 @@ maybe theorem tie_itermut_over_range (sb eb : Bound) (s : Sys) (h : Inv s.buf) :
        | error p => rfl
        | ok se =>
          obtain ⟨st, en⟩ := se
+         have hb := translateRange_inside sb eb s s1 st en htr
          have hs1 : s1 = s := by
            have := translateRange_state sb eb s
            rw [htr] at this
            exact this
          subst hs1
-         simp only [getBuf_bind, ite_run, bind_run, pure_run, tie_itermut_empty, tie_itermut_new s1 h, getBuf_run]
-         split
-         · rfl
-         · cases hn : Iter.new s1 with
-           | mk r2 s2 => cases r2 with
-             | error p => rfl
-             | ok it0 =>
-               simp only [tie_itermut_advance_front_by, tie_itermut_advance_back_by, liftE_bind])
-
+         -- the range lies inside the buffer: `len - end` cannot fail, so it does not matter when it is computed
+         have hu : usub s1.buf.size en = .ok (s1.buf.size - en) := by simp [usub]; omega
+         simp only [getBuf_bind, getBuf_run, ite_run, ite_bind, bind_run, pure_run, tie_itermut_empty, tie_itermut_new s1 h,
+           tie_itermut_advance_front_by, tie_itermut_advance_back_by, liftE_bind, liftE_run, hu, bind_assoc_run, pure_bind_run]
+         repeat' (first | rfl | ifsplit1 | split)
+         all_goals (first | rfl | (exfalso; omega)))
 
 end CircBuf
